@@ -579,7 +579,7 @@ func genProgram(r *hx.Rand, small bool) (src string, opts syntax.FileOptions, fe
 		g.itemComprehension, g.itemMethods, g.itemRecursion, g.itemControl, g.itemAssignForms}
 	n := 1 + r.Intn(10)
 	if small {
-		n = 1 + r.Intn(3)
+		n = 1 + r.Intn(2)
 	}
 	for i := 0; i < n; i++ {
 		hx.Pick(r, items)()
